@@ -612,11 +612,12 @@ class FuncGen:
         self.sk.append("]")
         return out, pp, False
 
-    FLAT = ("A", "Dc", "Da", "Dn", "Dm0", "Dm1", "Dm2", "Dv0", "Dv1", "Db0", "Di", "Big")
+    # statement kinds that keep a loop body a single straight-line block ("Big" is itself a loop: nested -> not flat)
+    FLAT = ("A", "Dc", "Da", "Dn", "Dm0", "Dm1", "Dm2", "Dv0", "Dv1", "Db0", "Di")
 
     def taint(self, ctx, mark):
         toks = self.sk[mark:]
-        if any(t.startswith("D") or t.startswith("Rf") for t in toks) and any(t not in self.FLAT for t in toks):
+        if any(t.startswith("D") or t.startswith("Rf") or t == "Big" for t in toks) and any(t not in self.FLAT for t in toks):
             self.tainted[ctx.lit] = True
 
     def s_gotoloop(self, ctx, ind, p):
